@@ -636,10 +636,48 @@ func scripted(c *ev.Case) {
 	}
 }
 
+// invalidCase: patterns and texts made of ASCII and of bytes that can never be
+// part of a valid UTF-8 sequence (lone continuation bytes, 0xF8..0xFF), so every
+// byte is its own decoding unit and byte-wise occurrences are unit-aligned. The
+// statement quantifies over every pattern set, not only over valid UTF-8.
+var invalidMap = strings.NewReplacer("x", "\x80", "y", "\xa3", "z", "\xbf", "w", "\xff", "v", "\xf8")
+var alphaInvalid = alphabet{"ascii+invalid-bytes", []rune{'a', 'b', 'x', 'y', 'z', 'w', 'v'}}
+
+func invalidCase(c *ev.Case) {
+	rng := c.Rng
+	raw := genPatterns(rng, alphaInvalid, 1, 8, rng.Pick(3, 5, 9))
+	pats := make([]string, len(raw))
+	for i, p := range raw {
+		pats[i] = invalidMap.Replace(p)
+	}
+	s := build(c, pats)
+	if s == nil {
+		return
+	}
+	rawD := distinctNonEmpty(raw)
+	nInvalidOcc := 0
+	for _, k := range []int{textRandom, textOverlap, textOverlap, textRandom} {
+		text := invalidMap.Replace(genValidText(rng, alphaInvalid, rawD, k, rng.Pick(6, 12, 24, 48)))
+		for _, o := range occurrences(s.dpats, text) {
+			if !utf8.ValidString(text[o.start:o.stop]) {
+				nInvalidOcc++
+			}
+		}
+		if !s.checkText(text, s.genRepls(alphaAB, len(text)), s.genMasks(alphaMixed)) {
+			return
+		}
+	}
+	c.Add("occurrences_containing_invalid_bytes", int64(nInvalidOcc))
+	c.Distinct(s.hash)
+	if c.WantSample() {
+		c.Sample(fmt.Sprintf("patterns with invalid bytes %s; 4 texts over ASCII + lone continuation / 0xF8.. bytes", q(pats)))
+	}
+}
+
 func main() {
 	r := ev.New("C06")
 	r.Rule("one case = one generated pattern list inserted into a real Trie + BuildFailureLinks, then 4-5 texts (random, overlap constructions, arbitrary bytes; or directed constructions: long pattern over earlier disjoint short ones, touching/overlapping chains, nested triples), each with 2 replacements (disjoint alphabet, empty, colliding, invalid bytes) and 1-2 mask runes of 1-4 bytes; distinct = hash of (pattern list, texts); non-trivial = at least one non-empty pattern")
-	r.Assume("oracle = byte-wise brute-force occurrences over the distinct non-empty inserted patterns -> covered bytes -> maximal covered regions; patterns are valid UTF-8 so every occurrence is rune-aligned and a rune is either fully covered or not at all")
+	r.Assume("oracle = byte-wise brute-force occurrences over the distinct non-empty inserted patterns -> covered bytes -> maximal covered regions; patterns are valid UTF-8 (so every occurrence is rune-aligned), except in the engine rand/invalid-bytes where patterns and texts consist of ASCII and of bytes that can never belong to a valid sequence, so that every byte is its own decoding unit")
 	r.Assume("Replace is accepted iff the result parses as u0 r^k1 u1 … r^km um with 1<=ki<=ni (all parses tried by a DP); mask runes are valid runes")
 
 	hv := ev.Opt{HangViolation: true}
@@ -654,6 +692,7 @@ func main() {
 	r.Cases("rand/fffd", r.N(20000, 640000), hv, cfg{als: fffd, minN: 1, maxN: 8, maxLen: 4}.run)
 	r.Cases("rand/wide", r.N(5000, 153600), hv, cfg{als: wide, minN: 11, maxN: 40, maxLen: 4}.run)
 	r.Cases("rand/big", r.N(60, 3000), hv, cfg{als: []alphabet{alphaABC, alphaMixed, alphaSib, alphaWide, alphaWideA}, minN: 40, maxN: 400, maxLen: 8, textRunes: []int{400, 1500, 4000}}.run)
+	r.Cases("rand/invalid-bytes", r.N(20000, 640000), hv, invalidCase)
 	r.Cases("lookback", r.N(40000, 1280000), hv, lookbackCase)
 	r.Cases("chains", r.N(30000, 896000), hv, chainCase)
 	r.Cases("nested", r.N(30000, 896000), hv, nestedCase)
@@ -670,5 +709,6 @@ func main() {
 	r.Require("replace_calls_colliding_replacement", 2000)
 	r.Require("texts_not_valid_utf8_with_occurrence", 2000)
 	r.Require("texts_without_occurrence", 1000)
+	r.Require("occurrences_containing_invalid_bytes", 5000)
 	r.Finish()
 }
